@@ -113,9 +113,10 @@ MkCase(d, T, N, mi, ci, hc, hn, fam, kind, pmask) ==
       XU[f \in 1..T] == IF f = 1 THEN pos0
                         ELSE LET prev == XU[f - 1] IN
                              [i \in 1..N |-> [k \in 1..d |->
-                                LET nx == prev[i][k] + step(f, i, k) IN
-                                IF kind = "long" /\ Abs(nx - pos0[i][k]) > 30 THEN prev[i][k] - step(f, i, k) ELSE nx]]
-      xu   == [f \in 1..T |-> XU[f]]
+                                LET p  == prev[i][k]             \* evaluated once per level (the application is not cached)
+                                    nx == p + step(f, i, k)
+                                IN  IF kind = "long" /\ Abs(nx - pos0[i][k]) > 30 THEN p - step(f, i, k) ELSE nx]]
+      xu   == Force([f \in 1..T |-> Force([i \in 1..N |-> Force(XU[f][i], d)], N)], T)
       \* triclinic cells (tilts of either sign): always for "tri", else for a third of the x-only cases
       tri  == kind = "tri" \/ (Modes[mi] = "x" /\ hh(26) % 3 = 0)
       tl(j) == IF kind = "tri" THEN Pick(<<0 - 3, 2, 0 - 1, 1, 3, 0 - 2>>, hh(26 + j)) ELSE Pick(<<0 - 3, 2, 0 - 1, 1>>, hh(26 + j))
